@@ -36,7 +36,8 @@ impl GenLine {
 
 /// `name = <line>` followed by a use of the name
 fn with_variable(value: Line, use_kind: u8, name_pick: u8) -> (Vec<Line>, Line) {
-    let names = ["total", "rent", "net amount", "bonus"];
+    // two names with non-ASCII letters whose case mapping is one-to-one (case variation must not matter for them either)
+    let names = ["total", "rent", "net amount", "bonus", "ürün", "цена нетто"];
     let name = names[name_pick as usize % names.len()];
     let mut def = Line::default();
     for w in name.split(' ') {
@@ -50,8 +51,24 @@ fn with_variable(value: Line, use_kind: u8, name_pick: u8) -> (Vec<Line>, Line) 
             l.push(Tok::word(w, Class::Var));
         }
     };
-    match use_kind % 4 {
+    match use_kind % 6 {
         0 => push_name(&mut u),
+        4 => {
+            // the use is itself an assignment: `other = name * 2,5`
+            u.push(Tok::word("other", Class::Var));
+            u.push(Tok::op('='));
+            push_name(&mut u);
+            u.push(Tok::op('*'));
+            u.push(Tok::num(NumLit::new(2.5)));
+        }
+        5 => {
+            u.push(Tok::word("grand", Class::Var));
+            u.push(Tok::word("sum", Class::Var));
+            u.push(Tok::op('='));
+            push_name(&mut u);
+            u.push(Tok::op('+'));
+            push_name(&mut u);
+        }
         1 => {
             push_name(&mut u);
             u.push(Tok::op('*'));
@@ -93,7 +110,7 @@ pub fn any_line() -> impl Strategy<Value = GenLine> {
         crate::c05::value_strategy().prop_map(|p| Line::new(vec![Tok::with("", p, "%", Class::Percent)])),
         crate::c10::part_strategy().prop_map(|p| Line::new(p.toks("en"))),
     ];
-    let c03 = (var_value, 0u8..4, 0u8..4).prop_map(|(v, k, n)| {
+    let c03 = (var_value, 0u8..6, 0u8..6).prop_map(|(v, k, n)| {
         let (prelude, line) = with_variable(v, k, n);
         GenLine { prelude, line, lang: "en".into(), tz: None, src: "C03".into() }
     });
